@@ -125,6 +125,15 @@ theorem Reset_eq : Gen.CpuGo.Alt.Reset = Cpu.reset := by
   simp only [Gen.CpuGo.Alt.Reset, Cpu.reset, gotie_a]
   gorun []
 
+/-- `TriggerIRQ()` / `triggerNMI()` as translated: the new value of the interrupt latch is the model's, the registers are untouched -/
+theorem TriggerIRQ_eq (latch : Nat) (s : St) :
+    Gen.CpuGo.Alt.TriggerIRQ latch s = some (Cpu.triggerIRQ .alt s.r latch, s) := by
+  simp only [Gen.CpuGo.Alt.TriggerIRQ, Cpu.triggerIRQ, Cpu.latchIRQ, get_bind, pure_run]
+  cases s.r.I <;> rfl
+
+theorem triggerNMI_eq (latch : Nat) (s : St) :
+    Gen.CpuGo.Alt.triggerNMI latch s = some (Cpu.triggerNMI .alt, s) := rfl
+
 /-! ### Step -/
 
 open Gen
